@@ -78,6 +78,12 @@ func feed(a *statsd.MetricAggregator, c *tcase, tags gostatsd.Tags, rng *vh.Rng)
 	maps := make([]*gostatsd.MetricMap, nb)
 	for i := range maps {
 		maps[i] = gostatsd.NewMetricMap(false)
+		if rng.Intn(2) == 0 { // a sibling series under the same name arrives first (different tag set, different source)
+			maps[i].Receive(&gostatsd.Metric{Name: "t", Type: gostatsd.TIMER, Value: 99, Rate: 0.5, Tags: gostatsd.Tags{"decoy:1"}, Timestamp: 10, Source: "s"})
+		}
+		if rng.Intn(4) == 0 {
+			maps[i].Receive(&gostatsd.Metric{Name: "t", Type: gostatsd.TIMER, Value: 98, Rate: 1, Tags: tags.Copy(), Timestamp: 10, Source: "other"})
+		}
 	}
 	for _, i := range order {
 		m := &gostatsd.Metric{Name: "t", Type: gostatsd.TIMER, Value: float64(c.Vals[i]), Rate: 1 / float64(c.Invs[i]), Tags: tags.Copy(), Timestamp: 10, Source: "s"}
@@ -93,6 +99,9 @@ func theTimer(a *statsd.MetricAggregator) (gostatsd.Timer, int) {
 	n := 0
 	a.Process(func(mm *gostatsd.MetricMap) {
 		mm.Timers.Each(func(_, _ string, tm gostatsd.Timer) {
+			if tm.Source != "s" || tm.Tags.Exists("decoy") {
+				return
+			}
 			t = tm
 			t.Percentiles = append(gostatsd.Percentiles(nil), tm.Percentiles...)
 			n++
